@@ -215,7 +215,9 @@ def run(ctx):
             if p == 'Rule::FORMATTED_STRING':
                 pushes = find_nodes(a['body'], lambda y: y.get('k') == 'mcall' and y['method'] == 'push' and src(y['recv']) == 'parts')
                 reorder = find_nodes(a['body'], lambda y: y.get('k') == 'mcall' and y['method'] in ('rev', 'sort', 'reverse', 'swap', 'insert'))
-                ok = len(pushes) == 1 and not reorder
+                # one push per part inside the loop over the parts, or the parts mapped and collected (an iterator keeps the order)
+                collected = find_nodes(a['body'], lambda y: y.get('k') == 'mcall' and y['method'] == 'collect')
+                ok = (len(pushes) == 1 or (not pushes and bool(collected))) and not reorder
                 r3.inst({'sugar': 'f-string', 'parts_pushed_in_loop_order': ok}, ok=ok)
                 if not ok:
                     r3.fail('fstring/order', '%s:%d' % (PF, a['line']), 'f-string parts are not collected in textual order')
